@@ -35,6 +35,9 @@ def sim_name(path):
     return p
 
 
+DEFAULT_IO_LATENCY = [0.0]      # set per world by the runner's `io_latency` knob
+
+
 class NoProgress(BaseException):
     """A handle was asked for data at end of file NO_PROGRESS_LIMIT times in a row without anything else happening to
     it: whoever reads it is not going to stop.  Liveness in simulated time (I/O steps), not wall-clock.  Derived from
@@ -79,6 +82,8 @@ class SimFile(object):
         fs = self.fs
         fs.seq += 1
         EVENTS[0] += 1
+        if fs.io_latency and fs.clock is not None:
+            fs.clock.advance(fs.io_latency)       # simulated time: this event took that long
         if fs.record:
             fs.log.append((fs.seq, self.hid, op, pos, req, ret))
 
@@ -286,6 +291,8 @@ class SimFS(object):
         self.mtimes = {}              # name -> modification time (files have one default time unless a world says otherwise)
         self.max_open = None          # descriptor limit: open() fails with EMFILE while this many library handles are open
         self.fail_opens = None        # {k}: the k-th such open raises EMFILE / EACCES (descriptor table full, unreadable file)
+        self.clock = None             # lib.SimClock, set by the store: simulated time of this world
+        self.io_latency = DEFAULT_IO_LATENCY[0]     # simulated seconds every read / write event takes (a slow or stalling disk)
         self.links = {}               # symbolic links: name -> target name (content-addressed stores link names to blobs)
         self.faults_fired = {}
         self.short_rng = random.Random(short_seed) if short_seed is not None else None
